@@ -35,6 +35,15 @@ fn check_prim<C: TestColor>(case: &Styled2, obs: &mut Obs) {
         if a.map != c.map {
             obs.fail("draw==pixels", format!("a=draw(), b=pixels(): {}", map_diff(&a.map, &c.map)));
         }
+        // the same drawable through the other public entry points: Styled::new and StyledDrawable::draw_styled
+        let s2 = embedded_graphics::primitives::Styled::new(s.primitive.clone(), s.style);
+        let mut d = RecD::<C>::new();
+        s2.draw(&mut d).unwrap();
+        let mut e = RecN::<C>::new();
+        embedded_graphics::primitives::StyledDrawable::draw_styled(&s.primitive, &s.style, &mut e).unwrap();
+        if d.map != a.map || e.map != a.map {
+            obs.fail("entry-points-agree", format!("Styled::new(..).draw(): {}; draw_styled on the native target: {}", map_diff(&a.map, &d.map), map_diff(&a.map, &e.map)));
+        }
     })
 }
 
@@ -143,11 +152,30 @@ fn check_bounded(c: &BoundedCase, obs: &mut Obs) {
             let _ = c.draw_iter(s.pixels());
             let inside = |m: &Map<Rgb565>| -> Map<Rgb565> { m.iter().filter(|(k, _)| bb.contains(Point::new(k.0, k.1))).map(|(k, v)| (*k, *v)).collect() };
             let (ia, ic) = (inside(&a.map), inside(&c.map));
+            obs.class_if(!ic.is_empty() && s.primitive.bounding_box().intersection(&bb).is_zero_sized(), "only-the-stroke-reaches-the-target");
             if ia != ic {
                 obs.fail("draw==pixels-inside-the-target", format!("target box {:?}: a=draw(), b=pixels(): {}", tb, map_diff(&ia, &ic)));
             }
         }),
     }
+}
+
+/// the primitive kinds of the bounded-target group at `at`, with the size of the bare shape's bounding box
+fn bounded_shapes(at: (i32, i32), tier: Tier) -> Vec<(Shape, (u32, u32))> {
+    let mut shapes = vec![
+        (Shape::Rect { x: at.0, y: at.1, w: 4, h: 3 }, (4, 3)),
+        (Shape::Circle { x: at.0, y: at.1, d: 5 }, (5, 5)),
+        (Shape::Ellipse { x: at.0, y: at.1, w: 6, h: 3 }, (6, 3)),
+        (Shape::rrect_eq(at.0, at.1, 6, 5, (2, 2)), (6, 5)),
+        (Shape::Tri { a: at, b: (at.0 + 5, at.1 + 1), c: (at.0 + 1, at.1 + 4) }, (6, 5)),
+        (Shape::Line { a: at, b: (at.0 + 5, at.1 + 3) }, (6, 4)),
+        (Shape::Sector { x: at.0, y: at.1, d: 6, start: 40, sweep: 800 }, (6, 6)),
+    ];
+    if tier.is_thorough() {
+        shapes.push((Shape::Arc { x: at.0, y: at.1, d: 7, start: 40, sweep: 800 }, (7, 7)));
+        shapes.push((Shape::Polyline { pts: vec![at, (at.0 + 4, at.1 + 1), (at.0, at.1 + 3)], tx: 1, ty: 0 }, (6, 4)));
+    }
+    shapes
 }
 
 fn bounded_cases(tier: Tier) -> Vec<BoundedCase> {
@@ -171,15 +199,26 @@ fn bounded_cases(tier: Tier) -> Vec<BoundedCase> {
                     }
                 }
             }
-            let mut shapes = vec![Shape::Rect { x: at.0, y: at.1, w: 4, h: 3 }, Shape::Circle { x: at.0, y: at.1, d: 5 }, Shape::Ellipse { x: at.0, y: at.1, w: 6, h: 3 }, Shape::rrect_eq(at.0, at.1, 6, 5, (2, 2)), Shape::Tri { a: at, b: (at.0 + 5, at.1 + 1), c: (at.0 + 1, at.1 + 4) }, Shape::Line { a: at, b: (at.0 + 5, at.1 + 3) }, Shape::Sector { x: at.0, y: at.1, d: 6, start: 40, sweep: 800 }];
-            if tier.is_thorough() {
-                shapes.push(Shape::Arc { x: at.0, y: at.1, d: 7, start: 40, sweep: 800 });
-                shapes.push(Shape::Polyline { pts: vec![at, (at.0 + 4, at.1 + 1), (at.0, at.1 + 3)], tx: 1, ty: 0 });
-            }
-            for sh in shapes {
+            for (sh, _) in bounded_shapes(at, tier) {
                 for sty in styles(2) {
                     v.push(BoundedCase::Prim { prim: Styled2 { shape: sh.clone(), sty }, tb });
                 }
+            }
+        }
+        // the bare shape lies just outside the target on one side; only its stroke reaches into the box
+        for (sh0, (w, h)) in bounded_shapes((0, 0), tier) {
+            let _ = sh0;
+            for at in [(tb.0 - w as i32, tb.1 + 1), (tb.0 + 1, tb.1 - h as i32), (tb.0 + tb.2 as i32, tb.1 + 1), (tb.0 + 1, tb.1 + tb.3 as i32), (tb.0 - w as i32, tb.1 - h as i32)] {
+                let sh = bounded_shapes(at, tier).into_iter().find(|(s, _)| std::mem::discriminant(s) == std::mem::discriminant(&sh0)).unwrap().0;
+                for sty in styles(4).into_iter().filter(|s| s.stroke && s.w >= 2) {
+                    v.push(BoundedCase::Prim { prim: Styled2 { shape: sh.clone(), sty }, tb });
+                }
+            }
+        }
+        // axis-parallel lines one row above / one column left of the box
+        for (a, b) in [((tb.0 + 1, tb.1 - 1), (tb.0 + 5, tb.1 - 1)), ((tb.0 - 1, tb.1 + 1), (tb.0 - 1, tb.1 + 4)), ((tb.0 + tb.2 as i32 + 1, tb.1), (tb.0 + tb.2 as i32 + 1, tb.1 + 3)), ((tb.0 + 4, tb.1 + tb.3 as i32 + 1), (tb.0, tb.1 + tb.3 as i32 + 1))] {
+            for sty in styles(5).into_iter().filter(|s| s.stroke && !s.fill && s.w >= 2) {
+                v.push(BoundedCase::Prim { prim: Styled2 { shape: Shape::Line { a, b }, sty }, tb });
             }
         }
     }
@@ -234,6 +273,7 @@ fn run_part(run: &mut Run) {
                 }, check_prim::<Rgb565>);
             run.sweep_vec("shapes-rgb565-pos2", "reduced shape catalogue x S(3) at position (-20,-17) (fully negative)",
                 || product(&shape_catalogue(false, (-20, -17)), &styles(3)), check_prim::<Rgb565>);
+            run.sweep_vec("display-scale", "display-scale catalogue (every primitive kind, 200..=320 px plus one 1024 px shape, at three positions far from / across the origin) x 6 styles (widths 0, 1, 3, 20, 64, 300)", || product(&display_scale_catalogue(), &display_scale_styles()), check_prim::<Rgb565>);
             run.sweep_vec("shapes-binary", "shape catalogue x S(2) in BinaryColor", || product(&shape_catalogue(false, (-2, -3)), &styles(2)), check_prim::<BinaryColor>);
             run.sweep_vec("shapes-gray8", "shape catalogue x S(2) in Gray8", || product(&shape_catalogue(false, (3, -1)), &styles(2)), check_prim::<Gray8>);
         }
@@ -259,7 +299,7 @@ fn run_part(run: &mut Run) {
             let fonts: Vec<usize> = if t { (0..FONTS.len()).step_by(7).collect() } else { vec![font_index("ascii::FONT_4X6"), font_index("iso_8859_1::FONT_6X10"), font_index("jis_x0201::FONT_10X20")] };
             run.sweep_vec("text-rgb565", "fonts x 11 strings x 16 colour/decoration combinations x 4 baselines x 3 alignments x line heights",
                 || text_catalogue(&fonts, &CATALOGUE_STRINGS, &[(1, 100), (0, 7)], (-3, 5)), check_text::<Rgb565>);
-            run.sweep_vec("bounded-target", "images (7 widths, 4 sizes, sub-images), text and seven primitive kinds x S(2) hanging over every edge and corner of two small target boxes (one not at the origin): both target flavours compared inside the target's box", || bounded_cases(tier), check_bounded);
+            run.sweep_vec("bounded-target", "images (7 widths, 4 sizes, sub-images), text and seven primitive kinds x S(2) hanging over every edge and corner of two small target boxes (one not at the origin), and the same kinds x stroke widths 2..=4 (lines to 5) placed just outside each side so that only the stroke reaches into the box: both target flavours compared inside the target's box", || bounded_cases(tier), check_bounded);
             run.sweep_vec("text-custom-fonts", "three synthetic fonts with character spacing 1, 2, 3 x 7 strings x 16 colour/decoration sets x 4 baselines x 3 alignments", || text_catalogue_named(&CUSTOM_FONTS, &CUSTOM_STRINGS, &[(1, 100)], (-3, 5)), check_text::<Rgb565>);
             run.sweep_vec("text-binary", "one font x strings x decorations in BinaryColor",
                 || text_catalogue(&[font_index("ascii::FONT_6X9")], &CATALOGUE_STRINGS, &[(1, 100)], (2, 2)), check_text::<BinaryColor>);
@@ -276,7 +316,7 @@ fn main() {
         assumptions: &["bounded to the listed catalogue (sizes, grids, stroke widths, fonts, strings)", "the harness's native target implements the documented meaning of fill_contiguous (row-major, stops at the shorter of area and stream), fill_solid and clear"],
         parts: |_| vec![PartSpec::new("shapes", "verif"), PartSpec::new("triangles", "verif"), PartSpec::new("polylines", "verif"), PartSpec::new("images-text", "verif"), PartSpec::new("angles-fixed-point", "verif_fp")],
         run_part,
-        required_classes: |_| vec!["rect", "circle", "ellipse", "rrect", "triangle", "line", "arc", "sector", "polyline", "fill-only", "stroke-only", "fill+stroke", "stroke-colour-absent-width>0", "width-0", "fully-negative", "image", "sub-image", "sub-sub-image", "row-padding", "text", "text-background", "text-decoration", "text-multiline", "bounded-target", "overhangs-the-target"],
+        required_classes: |_| vec!["rect", "circle", "ellipse", "rrect", "triangle", "line", "arc", "sector", "polyline", "fill-only", "stroke-only", "fill+stroke", "stroke-colour-absent-width>0", "width-0", "fully-negative", "image", "sub-image", "sub-sub-image", "row-padding", "text", "text-background", "text-decoration", "text-multiline", "bounded-target", "overhangs-the-target", "only-the-stroke-reaches-the-target"],
         crash_is_verdict: false,
     })
 }
